@@ -23,7 +23,7 @@ import (
 	"verifharness/lib/vlib"
 )
 
-const rule = "cases = (a) random DB programs biased to transactions (bodies from 0 to ~70 ops with values up to several write buffers, reads through the transaction and from outside incl. snapshots taken while it is open, commit / discard / Close-with-open-transaction, oversized batches with and without DisableLargeBatchTransaction) x option lattice x 4 comparers, checked per op against overlay and base maps plus storage residue; (b) writer-waits scenarios; (c) crash scenarios: every storage-op index around Commit x tail policies, reopened and compared with base / base+all; (d) commit-failure scenarios (manifest sync/write, table sync/write faults; retry, discard or close; follow-ups under a 10 s hang watchdog); (e) failing OpenTransaction; (f) commit-window scenarios with readers placed inside manifest writes and at the yield point between version install and sequence publication. Non-trivial = program with a transaction that flushed >=2 private tables and was read from both sides; scenario that reached its distinguishing situation (writer observed blocked then completed; both base and base+all crash images seen; a commit actually failed; a snapshot pinned inside the window)"
+const rule = "cases = (a) random DB programs biased to transactions (bodies from 0 to ~70 ops with values up to several write buffers, reads through the transaction and from outside incl. snapshots taken while it is open, commit / discard / Close-with-open-transaction, oversized batches with and without DisableLargeBatchTransaction) x option lattice x 4 comparers, checked per op against overlay and base maps plus storage residue; (b) writer-waits scenarios; (c) crash scenarios: every storage-op index around Commit x tail policies, reopened and compared with base / base+all; (d) commit-failure scenarios (manifest sync/write, table sync/write faults; retry, discard or close; follow-ups under a 10 s hang watchdog); (e) failing OpenTransaction; (f) commit-window scenarios with readers placed inside manifest writes and at the yield point between version install and sequence publication; (g) byte-level transaction scenarios in six variants (plain; an iterator held across a private flush; a table fault inside Transaction.Write followed by Commit or by Discard; a failing Commit followed by a retry or by Discard with working / failing storage), driven call by call with the private state observed after every call, judged directly (overlay inside, base outside, prefix applied by a failed Write, snapshot between a failed and a successful Commit unchanged) and rendered as KTxnBytes cases for the Coq byte-level machine. Non-trivial = program with a transaction that flushed >=2 private tables and was read from both sides; scenario that reached its distinguishing situation (writer observed blocked then completed; both base and base+all crash images seen; a commit actually failed; a snapshot pinned inside the window; byte-level scenario with >= 2 private flushes, an injected fault that was hit, or a Commit that actually failed)"
 
 type job struct {
 	kind string
@@ -38,6 +38,7 @@ type caseOut struct {
 	stats      map[string]int
 	nontrivial bool
 	kcases     []string
+	bcase      string // a byte-level transaction case (KTxnBytes), evaluated by Corr/C11BytesRun.v
 }
 
 func runCase(c Case, kr *vlib.RNG) caseOut {
@@ -56,6 +57,13 @@ func runCase(c Case, kr *vlib.RNG) caseOut {
 		o = scenOpenFail(c.Seed, c.Thorough)
 	case "window":
 		o = scenWindow(c.Seed, c.Thorough)
+	case "bytes":
+		var bc string
+		o, bc = scenBytes(c.Seed, c.Thorough)
+		if o.fail == "" {
+			o.known = ""
+		}
+		return caseOut{fail: o.fail, known: o.known, stats: o.stats, nontrivial: o.nontrivial, bcase: bc}
 	default:
 		return caseOut{fail: "unknown case kind " + c.Kind}
 	}
@@ -118,20 +126,27 @@ func main() {
 	}
 
 	thorough := a.Thorough()
-	n := map[string]int{"window": 24, "prog": 144, "wait": 16, "crash": 28, "fault": 36, "openfail": 8}
-	nops, kTxnCap, kTraceCap := 170, 64, 32
+	n := map[string]int{"window": 24, "prog": 144, "wait": 16, "crash": 28, "fault": 36, "openfail": 8, "bytes": 48}
+	nops, kTxnCap, kTraceCap, kBytesCap := 170, 64, 32, 48
 	if thorough {
-		n = map[string]int{"window": 400, "prog": 6000, "wait": 160, "crash": 700, "fault": 360, "openfail": 80}
-		nops, kTxnCap, kTraceCap = 400, 900, 450
+		n = map[string]int{"window": 400, "prog": 6000, "wait": 160, "crash": 700, "fault": 360, "openfail": 80, "bytes": 600}
+		nops, kTxnCap, kTraceCap, kBytesCap = 400, 900, 450, 400
 	}
 	if strings.Contains(a.Extra, "search") && !thorough {
 		for k := range n {
 			n[k] *= 4
 		}
 	}
+	if only := os.Getenv("C11_ONLY"); only != "" { // debugging aid: one case kind only
+		for k := range n {
+			if k != only {
+				n[k] = 0
+			}
+		}
+	}
 	root := vlib.NewRNG(a.Seed)
 	var kmu sync.Mutex
-	var kTxn, kTrace []string
+	var kTxn, kTrace, kBytes []string
 
 	var vmu sync.Mutex
 	nKnown := 0
@@ -151,6 +166,9 @@ func main() {
 		}
 		res.Eval(fmt.Sprintf("%s-%d", j.kind, j.i), nontrivial)
 		kmu.Lock()
+		if o.bcase != "" && len(kBytes) < kBytesCap {
+			kBytes = append(kBytes, o.bcase)
+		}
 		for _, kc := range kcases {
 			if len(kc) > 60000 {
 				continue
@@ -243,13 +261,17 @@ func main() {
 
 	// phase 2: everything else in parallel; slow scenario kinds first
 	var jobs []job
-	for _, kind := range []string{"fault", "crash", "openfail", "wait", "prog"} {
+	for _, kind := range []string{"fault", "bytes", "crash", "openfail", "wait", "prog"} {
 		off := root.Intn(36)
 		for i := 0; i < n[kind]; i++ {
 			sd := root.Uint64()
 			if kind == "fault" {
 				// consecutive residues modulo 36 walk through all (fault kind, via, afterwards) combinations
 				sd = sd - sd%36 + uint64((off+i)%36)
+			}
+			if kind == "bytes" {
+				// the variants in turn; the slow ones (a failing Commit sleeps 3 s) first
+				sd = sd - sd%uint64(nBytesVariants) + uint64((nBytesVariants-1)-i%nBytesVariants)
 			}
 			jobs = append(jobs, job{kind, i, sd})
 		}
@@ -296,4 +318,6 @@ func main() {
 		}
 	}
 	res.WriteCases("From GL Require Import Corr.C11Run.", "c11case", "mismatches", mixed, shards)
+	res.Count("k_cases_txnbytes", len(kBytes))
+	writeByteCases(res, a.Out, kBytes)
 }
